@@ -15,9 +15,14 @@ for n in names:
         rows.append((n, prop, "PATCH DOES NOT APPLY", "", 0)); print(n, "patch does not apply"); continue
     t0 = time.time()
     try:
-        r = subprocess.run("cd %s && ./check %s --tier quick" % (V, prop), shell=True, capture_output=True, text=True, timeout=1800)
-        out = r.stdout
-        code = r.returncode
+        try:
+            r = subprocess.run("cd %s && ./check %s --tier quick" % (V, prop), shell=True, capture_output=True, text=True, timeout=600)
+            out = r.stdout
+            code = r.returncode
+        except subprocess.TimeoutExpired:
+            out = ""
+            code = 2
+            subprocess.run("ps aux | grep 'pyvc[.]cli' | awk '{print $2}' | xargs -r kill", shell=True)
     finally:
         subprocess.run("git -C /repo checkout -- .", shell=True)
     viol = [l for l in out.splitlines() if l.startswith("VIOLATION")]
